@@ -100,6 +100,8 @@ def execute(p, ch):
         paused = [False] * len(eps)
         budget = p["toggles"]
         ticks = 2
+        closes = 1 if p.get("closer") is not None else 0
+        closed = set()
         W = p.get("W", 2)
         if p.get("backlog"):
             # a deep backlog instead of a short burst: the victim is stalled from the start and never drains while
@@ -137,6 +139,9 @@ def execute(p, ch):
             if budget > 0:
                 for i in range(len(eps)):
                     menu.append(("toggle", i))
+            if closes > 0:
+                # the server closes one connection (its peer went away, shutdown of that client) at any moment
+                menu.append(("close", p["closer"]))
             nt = loop.next_timer()
             if nt is not None and ticks > 0 and not loop.has_ready():
                 # time passes (to the next timer of the loop) while I/O is still outstanding: the unchanged handlers set
@@ -165,6 +170,13 @@ def execute(p, ch):
                 ctl.run(act[1])
             elif act[0] == "djob":
                 dctl.run(act[1])
+            elif act[0] == "close":
+                closes -= 1
+                closed.add(act[1])
+                try:
+                    handlers[act[1]].close()
+                except Exception as e:  # noqa
+                    obs.setdefault("route_errors", []).append(e)
             elif act[0] == "tick":
                 ticks -= 1
                 loop.advance_to(loop.next_timer())
@@ -177,12 +189,12 @@ def execute(p, ch):
         victim = p.get("victim")
         obs["mid"] = [ep.written() for ep in eps]
         for i, ep in enumerate(eps):
-            if paused[i] and i != victim:
+            if paused[i] and i != victim and i not in closed:
                 ep.resume()
                 paused[i] = False
         loop.auto_default_jobs = True
         loop.quiesce()
-        obs["paused_at_end"] = list(paused)
+        obs["paused_at_end"] = [paused[i] or i in closed for i in range(len(paused))]  # a closed connection holds a prefix
         if tr == "tty":
             obs["out"] = [sink.getvalue()]
         elif tr == "mixed":
@@ -223,7 +235,8 @@ def judge(p, obs):
             fails.append(("missing", d0 + (",other-stalled" if any(obs["paused_at_end"]) else ""), "connection %d wrote only %r of %d messages" % (i, got, len(want_views))))
         else:
             fails.append(("content", d0, "connection %d wrote %r" % (i, got)))
-    if obs["errors"]:
+    if obs["errors"] and p.get("closer") is None:
+        # (a connection closed under pending sends leaves its own send tasks failing: not this property's business)
         fails.append(("loop-error", d0, repr(obs["errors"])))
     if obs.get("route_errors"):
         from mc import lib
@@ -246,6 +259,10 @@ def configs(tier):
             out.append(dict(transport="tcp-server", nconn=2, burst=3, toggles=2, victim=victim))
         out.append(dict(transport="tcp-server", nconn=3, burst=2, toggles=2, victim=0))
         out.append(dict(transport="tcp-server", nconn=3, burst=3, toggles=1, victim=2))
+        # one connection is closed by the server at any moment of the burst: the others still get everything
+        out.append(dict(transport="tcp-server", nconn=2, burst=3, toggles=1, victim=None, closer=0))
+        out.append(dict(transport="tcp-server", nconn=2, burst=2, toggles=2, victim=None, closer=1))
+        out.append(dict(transport="tcp-server", nconn=3, burst=2, toggles=1, victim=None, closer=1))
         out.append(dict(transport="mixed", nconn=1, burst=2, toggles=1, victim=0, W=2))
         out.append(dict(transport="mixed", nconn=1, burst=3, toggles=1, victim=None, W=2))
         out.append(dict(transport="mixed", nconn=2, burst=2, toggles=1, victim=1, W=2))
@@ -293,6 +310,9 @@ def configs(tier):
         for burst in (2, 3, 4):
             for victim in (None, 0, 1):
                 out.append(dict(transport="tcp-server", nconn=2, burst=burst, toggles=4 if burst == 2 else 3, victim=victim))
+            for closer in (0, 1):
+                out.append(dict(transport="tcp-server", nconn=2, burst=burst, toggles=2, victim=None, closer=closer))
+        out.append(dict(transport="tcp-server", nconn=3, burst=3, toggles=1, victim=None, closer=1))
         for victim in (None, 0, 2):
             out.append(dict(transport="tcp-server", nconn=3, burst=2, toggles=3, victim=victim))
             out.append(dict(transport="tcp-server", nconn=3, burst=3, toggles=2, victim=victim))
